@@ -37,6 +37,7 @@ RULE = (
     "(3) re-initialising does not raise. distinct = (solver, variant, joint types, force-law kinds, contact kinds, split "
     "position bucket); non-trivial = at least one split executed with >= 1 bilateral constraint, force law or contact"
 )
+RULE += " Third copy variant: the copy is taken from the system that has just finished the whole uninterrupted run. Time origins are arbitrary (t0 != 0, splits exactly at t = 0.0 with dyadic steps). Sessions with a Cosserat rod (its coordinates, internal constraints and end joints are re-initialised) and with a user-defined nonholonomic constraint."
 COMPONENTS = {
     "real": ["System.deepcopy / set_new_initial_state / assemble", "all five solvers", "joints, force laws, contacts", "save_solution / load_solution (real files)"],
     "stub": ["tqdm -> SimProgress"],
